@@ -707,7 +707,8 @@ pub fn generate(name: &str, rng: &mut Rng, n: usize, tier: &str) -> Vec<String> 
     let mut out = vec![];
     match name {
         "alloc" => {
-            // the reproducer of finding C and the C04 consequence first
+            // the reproducer of finding C first; the second line is the former C04 consequence (a
+            // value-preserving restore used to re-tag the laundered atom as inline)
             out.push("ALLOC c0 3 small:128;sub:0,0,1;sub:0,1,2;atom:0080;sub:3,0,1".to_string());
             out.push("ALLOC c1 - atom:00;atom:80;cat:2,0,1;sub:2,0,1;tcp;atom:".to_string() + &"ab".repeat(600) + ";atom:" + &"cd".repeat(600) + ";cat:2,0,1;mrst:4,7;sub:8,0,1");
             for i in 0..n {
@@ -1049,6 +1050,10 @@ pub fn check_history(limit: Option<usize>, ops: &[Op], rep: &mut OracleReport, e
             Op::Sub(x, _, _) => sess.node(*x).map(|p| p.object_type() == ObjectType::SmallAtom).unwrap_or(false),
             _ => false,
         };
+        let mrst_type = match op {
+            Op::Mrst(_, x) => sess.node(*x).map(|p| p.object_type()),
+            _ => None,
+        };
         let tag = sess.step(op);
         let after = sess.counts();
         rep.hit(&format!("op_{}_{}", op.fmt().split(':').next().unwrap(), match &tag { Tag::Err(k) => k.as_str(), Tag::Skip => "skip", Tag::Aborted => "aborted", Tag::NoReplace => "noreplace", Tag::Replace => "replace", _ => "ok" }));
@@ -1115,7 +1120,15 @@ pub fn check_history(limit: Option<usize>, ops: &[Op], rep: &mut OracleReport, e
             }
         }
         if let (Op::Mrst(..), Tag::Err(k)) = (op, &tag) {
-            rep.fail("maybe_restore_ok", format!("maybe_restore_with_node returned {k}; {}", ctx()));
+            let pre = if sh.tainted { format!("{KNOWN_C} (after the trigger): ") } else { String::new() };
+            rep.fail("maybe_restore_ok", format!("{pre}maybe_restore_with_node returned {k}; {}", ctx()));
+        }
+        // a replaced heap atom is re-created as a heap atom (representation preserved)
+        if let (Op::Mrst(..), Tag::Replace, Some(t0)) = (op, &tag, mrst_type) {
+            let t1 = sess.node(slot).map(|p| p.object_type());
+            if t0 != ObjectType::Bytes || t1 != Some(ObjectType::Bytes) {
+                rep.fail("maybe_restore_repr", format!("Replace turned a {:?} node into {:?}; {}", t0, t1, ctx()));
+            }
         }
         // immutability: every still-valid node denotes what it denoted when it was created
         let is_restore = matches!(op, Op::Rst(_) | Op::Trst(_) | Op::Mrst(..));
